@@ -121,6 +121,7 @@ func Imports(f *File) {
 	f.P("_ = socketcan.Dial")
 	f.P("_ = candebug.ServeMessagesHTTP")
 	f.P("_ = canrunner.Run")
+	f.P("_ = cantext.MessageString")
 	f.P(")")
 	f.P()
 	f.P("// Generated code. DO NOT EDIT.")
